@@ -2,7 +2,7 @@
    ExtrOcamlBasic only (bool, option, unit, list, prod, sumbool, ... as OCaml's own);
    N, Z, positive, nat and byte stay Coq datatypes.  No Extract Constant. *)
 From Coq Require Import extraction.Extraction extraction.ExtrOcamlBasic.
-From IKE Require Import Lib.Base Prim.Hmac Spec.PrfPlus Impl.EapAkaPrf Impl.Msg Impl.Eap Impl.Payloads Impl.Message Prim.Cbc Impl.Security Impl.Ike Spec.Modp Impl.Dh Impl.Registry Impl.Build Spec.Wire Spec.WireParse.
+From IKE Require Import Lib.Base Prim.Hmac Spec.PrfPlus Impl.EapAkaPrf Impl.Msg Impl.Eap Impl.Payloads Impl.Message Prim.Cbc Impl.Security Impl.Ike Spec.Modp Impl.Dh Impl.Registry Impl.Build Spec.Wire Spec.WireParse Thm.DomainB.
 Extraction Language OCaml.
 Extraction "model.ml"
   b2n n2b be_val N.of_nat
@@ -25,4 +25,4 @@ Extraction "model.ml"
   build_configuration build_cp_attr build_nonce build_tsi build_tsr build_selector build_sa build_proposal
   build_delete build_transform build_eap build_eap_success build_eap_failure build_eap5g_start build_eap5g_nas
   build_notify_5g_qos_info build_notify_nas_ip4 build_notify_up_ip4 build_notify_nas_tcp_port
-  wenc wparse erase_chain canon_payload canonical_payload wtype wenc_chain.
+  wenc wparse erase_chain canon_payload canonical_payload wtype wenc_chain dom_msgb.
